@@ -147,11 +147,16 @@ def run(tier, seed):
                             {"kind": "bytes+config", "hex": rec.get("hex"), "cfg": rec.get("cfg")})
     log(f"[C01] {n_roles} boundary cases from RolesGen; {cnt['runs']} runs: {cnt['layouts']} layouts, {cnt['errors']} structured errors, "
         f"{cnt['bad']} failing, {len(crashes)} process-level crashes; families {info['families'] if info else '?'}")
-    sample = None
-    with open(traces[0]) as fh:
-        fh.readline()
-        s = json.loads(fh.readline())
-        sample = {k: s.get(k) for k in ("family", "hex", "cfg", "analyze")}
+    sample = {"note": "no completed run"}
+    for tp in traces:
+        try:
+            with open(tp) as fh:
+                fh.readline()
+                s = json.loads(fh.readline())
+                sample = {k: s.get(k) for k in ("family", "hex", "cfg", "analyze")}
+                break
+        except Exception:
+            continue
     cov = {"evaluations": cnt["runs"] + len(crashes), "distinct_nontrivial": cnt["runs"],
            "rule": "one case per (input bytes, configuration); inputs: RolesGen boundary programs x 3 contexts, crafted cyclic-type "
                    "programs, random bytes, opcode soup, control-flow / idiom / constant programs, mutated and truncated real "
